@@ -1,3 +1,4 @@
-// C09 harness, label type c09::uptr (see c09_tree.cpp)
+// C09 secondary harness binary, label type c09::uptr (see c09_tree.cpp / c09_forest.hpp)
 #include "c09_run.hpp"
-int c09_run_uptr(std::string const &mode, int argc, char **argv) { return c09::run<c09::uptr>(mode, argc, argv); }
+
+int main(int argc, char **argv) { return c09::main_for<c09::uptr>(argc, argv); }
